@@ -73,7 +73,11 @@ fn projection(e: &Estimates, qa: &BigInt, duration: i64, stats: &mut CaseStats) 
     let p0 = q128_to_f64(&e.power.position);
     let p_end = p0 + q128_to_f64(&e.power.velocity) * duration as f64;
     // (band only where the estimates are well-conditioned: network power estimate ≥ 1 MiB and not collapsing within the projection)
-    if est.is_finite() && est > 1e6 && e.power.estimate() >= BigInt::from(1u64 << 20) && p_end > 0.1 * p0 {
+    // (the fixed-point formula loses all precision when the power estimate changes by less than ~1e-6 of itself over the
+    //  projection — differences of nearly equal logarithms — so such samples are not banded)
+    let vp = q128_to_f64(&e.power.velocity);
+    let well_conditioned = vp == 0.0 || (vp.abs() * duration as f64) / p0 > 1e-6;
+    if est.is_finite() && est > 1e9 && e.power.estimate() >= BigInt::from(1u64 << 20) && p_end > 0.1 * p0 && well_conditioned {
         let ex = exact.to_f64().unwrap_or(0.0);
         let rel = (ex - est).abs() / est;
         vassert!(rel < 2e-3, "reward-projection-off", "expected reward for power {} over {} epochs is {} but the integral of the estimates gives {:.0} (relative error {:.5})", qa, duration, exact, est, rel);
